@@ -40,6 +40,7 @@ func (c *FuncCtx) anchor(pos token.Pos) string {
 }
 
 func (c *FuncCtx) evalCall(st *State, x *ast.CallExpr) []*Val {
+	c.atCall(st, x)
 	// conversion?
 	if tv, ok := c.eng.info.Types[x.Fun]; ok && tv.IsType() {
 		v := c.eval(st, x.Args[0])
@@ -435,6 +436,20 @@ func (c *FuncCtx) specBuiltin(st *State, name string, x *ast.CallExpr) ([]*Val, 
 	switch name {
 	case "old":
 		return []*Val{c.evalOld(st, x.Args[0])}, true
+	case "loopentry":
+		// value of an expression when the loop (whose invariant this is) was entered
+		if c.loopEntry == nil {
+			limitf("loopentry() used outside a loop invariant")
+		}
+		tmp := c.loopEntry.clone()
+		tmp.bound = st.bound
+		tmp.pc = st.pc
+		tmp.facts = st.facts
+		tmp.guard = st.guard
+		tmp.old = st.old
+		v := c.eval(tmp, x.Args[0])
+		st.pc = tmp.pc
+		return []*Val{v}, true
 	case "implies":
 		l := c.eval(st, x.Args[0])
 		st.guard = append(st.guard, l.S)
@@ -518,6 +533,17 @@ func (c *FuncCtx) specBuiltin(st *State, name string, x *ast.CallExpr) ([]*Val, 
 		t := c.resolveSpecType(x.Args[1])
 		r, _ := c.assertTo(st, v, t)
 		return []*Val{r}, true
+	case "mapset":
+		// mapset(m, k, v): the map m with m[k] = v
+		m := c.eval(st, x.Args[0])
+		mt, ok := under(m.T).(*types.Map)
+		if !ok {
+			limitf("mapset: not a map")
+		}
+		k := c.coerce(st, c.eval(st, x.Args[1]), mt.Key())
+		v := c.coerce(st, c.eval(st, x.Args[2]), mt.Elem())
+		sm := m.Sort
+		return []*Val{{T: m.T, S: app("mk_"+sm, mkStore(acc("dom_"+sm, m.S), k.S, tTrue), mkStore(acc("val_"+sm, m.S), k.S, v.S), tFalse), Sort: sm}}, true
 	case "isnil":
 		v := c.eval(st, x.Args[0])
 		return b(c.isNilTerm(v)), true
